@@ -67,7 +67,7 @@ def run_case(sg, ops, case, want_generator=True):
     res["nclusters"] = len(exp["clusters"])
     res["nstab"] = len(exp["stab"])
     try:
-        pos, nested, mult = expandPosition(sg, x, off)
+        pos, nested, mult = expandPosition(sg, x, off, case.get("eps"))
         res["impl"] = {"pos": [[float(c) for c in p] for p in pos], "ops": _oplists(sg, nested), "mult": int(mult)}
     except Exception as e:  # noqa
         res["impl"] = None
@@ -86,7 +86,7 @@ def run_case(sg, ops, case, want_generator=True):
         U0 = case.get("U")
         try:
             import numpy
-            kw = {"sgoffset": off}
+            kw = {"sgoffset": off, "eps": case.get("eps")}
             if U0:
                 kw["Uij"] = numpy.array([[U0[0], U0[3], U0[4]], [U0[3], U0[1], U0[5]], [U0[4], U0[5], U0[2]]], dtype=float)
             gs = GeneratorSite(sg, x, **kw)
@@ -105,8 +105,10 @@ def run_case(sg, ops, case, want_generator=True):
     if gs is not None and exp["judged"]:
         snapped = co.snapped_site(ops, case)
         xs, offs, _ = co.case_fracs(case)
-        small = [c for c in snapped if c != 0 and abs(c) < co.EPS_EQ + co.MARGIN]
-        gcase = co.make_case(case["si"], "snapped", snapped, offs, snapped, case.get("stratum"))
+        EQc, _, MGc = co.tolerances(case)
+        small = [c for c in snapped if c != 0 and abs(c) < EQc + MGc]
+        gcase = co.make_case(case["si"], "snapped", snapped, offs, snapped, case.get("stratum"), base=12 if case.get("dyadic") else None)
+        gcase["eps"], gcase["dyadic"] = case.get("eps"), case.get("dyadic")
         gexp = co.analyse(ops, gcase)
         if small or not gexp["judged"]:
             res["not_judged"] += 1
@@ -132,7 +134,7 @@ def run_asym_unit(sg, ops, results):
     groups = {}
     for k, r in enumerate(results):
         if r.get("gimpl"):
-            groups.setdefault(tuple(r["case"]["off"]) + (r["case"]["D"],), []).append(k)
+            groups.setdefault(tuple(r["case"]["off"]) + (r["case"]["D"], r["case"].get("eps")), []).append(k)
     for key, ks in groups.items():
         # prefer the sites the finder can judge, then the cheapest ones
         ks = sorted(ks, key=lambda k: ("gexp" not in results[k], results[k]["nclusters"]))[:4]
@@ -143,7 +145,7 @@ def run_asym_unit(sg, ops, results):
             import numpy
             Us = [numpy.array([[u[0], u[3], u[4]], [u[3], u[1], u[5]], [u[4], u[5], u[2]]], dtype=float)
                   for u in (r["case"].get("U") or [0.0] * 6 for r in rs)]
-            eau = ExpandAsymmetricUnit(sg, xs, coreUijs=Us, sgoffset=off)
+            eau = ExpandAsymmetricUnit(sg, xs, coreUijs=Us, sgoffset=off, eps=rs[0]["case"].get("eps"))
         except Exception as e:  # noqa
             bad.append((rs[0]["case"], ("exception", "ExpandAsymmetricUnit", "raised %s: %s" % (type(e).__name__, e))))
             continue
@@ -166,7 +168,7 @@ def build_cases(si, ops, rng, tier):
     keys = sorted(strata)
     if tier == "quick":
         rng.shuffle(keys)
-        chosen = keys[:3]
+        chosen = keys[:2] if len(ops) >= 96 else keys[:3]
         gen_variants = [("exact",), ("offset+shift",)]
         # one exact-type variant, one inside, one outside per chosen stratum
         special_variants = lambda j: [rng.choice(("exact", "shift", "offset", "offset+shift")), rng.choice(("inside", "inside", "inside+offset")), "outside"]  # noqa
@@ -186,6 +188,21 @@ def build_cases(si, ops, rng, tier):
         for j, table in enumerate(more):
             if st in table:
                 cases += co.cases_for_site(si, rng, table[st], list(st), special_variants(j))
+    # the `eps` argument as an input dimension (groups with dyadic translations, dyadic mid-bin sites)
+    if co.dyadic_group(ops):
+        dstrata = co.fixed_set_strata(ops, rng, dyadic=True)
+        dkeys = sorted(dstrata)
+        rng.shuffle(dkeys)
+        big = len(ops) >= 96
+        if tier == "quick":
+            picks = dkeys[:1]
+            variants = lambda: ([rng.choice(("eps0-off", "eps0-off+offset"))] if len(ops) >= 48  # noqa
+                                else ["eps0-off", "eps0-off+offset", rng.choice(("eps0-exact", "eps1e-7-off", "eps1e-7-in", "eps1e-3-in", "eps1e-3-in+offset"))])
+        else:
+            picks = dkeys[:1 if big else 3]
+            variants = lambda: list(co.EPS_VARIANTS)  # noqa
+        for st in picks:
+            cases += co.eps_cases_for_site(si, rng, dstrata[st], list(st), variants())
     return cases, len(keys)
 
 
@@ -217,7 +234,7 @@ def _worker(arg):
 # model side: evaluate the Coq definitions on the same exact inputs
 # ------------------------------------------------------------------------------------------------
 HEADER = """From Coq Require Import ZArith List.
-From DS Require Import Base.ZMat Base.SGDefs Model.GroupCheck Model.C02_Orbit Model.C02_Eps Model.C02_Gen Gen.SGTables.
+From DS Require Import Base.ZMat Base.SGDefs Model.GroupCheck Model.C02_Orbit Model.C02_Eps Model.C02_Gen Model.C02_EpsTol Gen.SGTables.
 Import ListNotations. Open Scope Z_scope.
 Definition G (i : nat) := nth i (map sg_ops all_settings) [].
 """
@@ -239,19 +256,25 @@ def v3l(v):
     return "(V3 %s)" % " ".join(zl(c) for c in v)
 
 
+def tol_expr(c):
+    """`tol_of` applied to the exact rational value of the eps argument of the case (None = default)."""
+    r = co.eps_ratio(c.get("eps"))
+    return "(tol_of None)" if r is None else "(tol_of (Some (%d, %d)))" % r
+
+
 def coq_case(cid, c, flag):
-    """One evaluation: the first expansion is shared between expand_eps and the GeneratorSite model."""
+    """One evaluation: the first expansion is shared between expand_eps_t and the GeneratorSite model."""
     si = c["si"]
     hyp = ("(if snap_hyps_b %s G0 %s %s %s then 1 else 0)" % (zl(c["D"]), v3l(c["off"]), v3l(c["x"]), v3l(c["ref"]))) if flag else "(-1)"
-    return ("Eval vm_compute in (let G0 := G %d in let r := expand_eps %s G0 %s %s in (777, %d, showz G0 r, "
-            "showz G0 (expand_exact %s G0 %s %s), gshow G0 (generator_site_from %s G0 %s %s r), %s)).\n"
-            % (si, zl(c["D"]), v3l(c["off"]), v3l(c["x"]), cid, zl(c["D"]), v3l(c["off"]), v3l(c["x"]),
+    return ("Eval vm_compute in (let G0 := G %d in let T := %s in let r := expand_eps_t T %s G0 %s %s in (777, %d, showz G0 r, "
+            "showz G0 (expand_exact %s G0 %s %s), gshow G0 (generator_site_from_t T %s G0 %s %s r), %s)).\n"
+            % (si, tol_expr(c), zl(c["D"]), v3l(c["off"]), v3l(c["x"]), cid, zl(c["D"]), v3l(c["off"]), v3l(c["x"]),
                zl(c["D"]), v3l(c["off"]), v3l(c["x"]), hyp))
 
 
-def coq_group(gid, si, D, off, xs):
-    return ("Eval vm_compute in (778, %d, ashow (expand_asym %s (G %d) %s [%s])).\n"
-            % (gid, zl(D), si, v3l(off), "; ".join(v3l(x) for x in xs)))
+def coq_group(gid, si, D, off, xs, tol="(tol_of None)"):
+    return ("Eval vm_compute in (778, %d, ashow (expand_asym_t %s %s (G %d) %s [%s])).\n"
+            % (gid, tol, zl(D), si, v3l(off), "; ".join(v3l(x) for x in xs)))
 
 
 def qlit(f):
@@ -331,7 +354,7 @@ def _shards(items, cost, n):
     return [sh for sh in shards if sh]
 
 
-def run_model(ctx, cases, nops, flags=(), groups=None, ucases=None):
+def run_model(ctx, cases, nops, flags=(), groups=None, ucases=None, cost=None):
     """cases: {cid: case}; flags: cids for which the hypotheses of the snap theorem are evaluated;
     groups: {gid: (si, D, off, [x...])} for expand_asym; ucases: {cid: adjusted tensor (6 floats)}.
     Returns ({cid: (eps, exact, generator, flag)}, {gid: asym}, {cid: tensors}, errors)."""
@@ -339,7 +362,8 @@ def run_model(ctx, cases, nops, flags=(), groups=None, ucases=None):
     ucases = ucases or {}
     flags = set(flags)
     texts = []
-    for sh in _shards(list(cases), lambda k: nops[cases[k]["si"]] ** 2, NSHARDS):
+    cost = cost or {}
+    for sh in _shards(list(cases), lambda k: cost.get(k, nops[cases[k]["si"]] ** 2), NSHARDS):
         texts.append(("m", HEADER + "".join(coq_case(k, cases[k], k in flags) for k in sh)))
     if groups:
         for sh in _shards(list(groups), lambda g: sum(nops[groups[g][0]] for _ in groups[g][3]), 8):
@@ -403,11 +427,12 @@ def second_stage_fragile(ops, case, gm):
     if gm is None or gm["D"] == case["D"]:
         return False
     Dn = gm["D"]
-    eps = float(co.EPS_EQ)
-    if any(abs(abs(v / Dn) - eps) < 1e-9 for v in gm["xyz"]):
+    EQ, _, MG = co.tolerances(case)
+    if MG > 0 and any(abs(abs(v / Dn) - float(EQ)) < float(MG) for v in gm["xyz"]):
         return True
     k = Dn // case["D"]
-    c2 = {"si": case["si"], "D": Dn, "kind": "snapped", "x": gm["xyz"], "off": [v * k for v in case["off"]], "ref": gm["xyz"]}
+    c2 = {"si": case["si"], "D": Dn, "kind": "snapped", "x": gm["xyz"], "off": [v * k for v in case["off"]], "ref": gm["xyz"],
+          "eps": case.get("eps"), "dyadic": case.get("dyadic")}
     return bool(co.analyse(ops, c2)["fragile"])
 
 
@@ -493,7 +518,7 @@ def process(ctx, settings_idx, do_model=True, do_uij=True):
     if do_model and cases:
         t0 = time.time()
         # hypotheses of the snap theorem: evaluated on inside cases of small groups (quadratic in the group order)
-        flags = [cid for cid, c in cases.items() if c["kind"] in ("inside", "inside+offset") and nops[c["si"]] <= 48 and not results[cid]["fragile"]]
+        flags = [cid for cid, c in cases.items() if c["kind"] in ("inside", "inside+offset") and c.get("eps") is None and nops[c["si"]] <= 48 and not results[cid]["fragile"]]
         flags = flags[::(3 if ctx.tier == "quick" else 2)]
         # ExpandAsymmetricUnit calls that are cheap to evaluate in Coq as a whole
         groups = {}
@@ -501,14 +526,17 @@ def process(ctx, settings_idx, do_model=True, do_uij=True):
             mem = [base + k for k in g["members"]]
             if sum(nops[si] * max(1, results[c]["nclusters"]) for c in mem) <= 4000 and not any(results[c]["fragile"] for c in mem):
                 c0 = cases[mem[0]]
-                groups[gid] = (si, c0["D"], c0["off"], [cases[c]["x"] for c in mem])
+                groups[gid] = (si, c0["D"], c0["off"], [cases[c]["x"] for c in mem], tol_expr(c0))
         groups = {g: groups[g] for g in list(groups)[::(5 if ctx.tier == "quick" else 4)]}
         ucases = {cid: r["gimpl"]["U"] for cid, r in results.items()
-                  if r.get("gimpl") and "eqU" in r["gimpl"] and not r["fragile"] and nops[cases[cid]["si"]] * r["nclusters"] <= 2500}
+                  if r.get("gimpl") and "eqU" in r["gimpl"] and not r["fragile"] and cases[cid].get("eps") is None
+                  and nops[cases[cid]["si"]] * r["nclusters"] <= 2500}
         ucases = {k: ucases[k] for k in list(ucases)[::(6 if ctx.tier == "quick" else 5)]}
         if not do_uij:
             ucases = {}
-        model, gmodel, umodel, merr = run_model(ctx, cases, nops, flags, groups, ucases)
+        # cost of one evaluation ~ operations x positions (x2 when the site is moved and re-expanded)
+        cost = {cid: nops[c["si"]] * max(1, results[cid]["nclusters"]) * (2 if c["kind"].startswith("inside") else 1) for cid, c in cases.items()}
+        model, gmodel, umodel, merr = run_model(ctx, cases, nops, flags, groups, ucases, cost)
         ctx.log("Coq evaluation on %d cases (+%d asymmetric-unit calls, %d tensor cases): %.1fs" % (len(cases), len(groups), len(ucases), time.time() - t0))
         ctx.obligation("model:evaluated-all-cases", not merr["m"] and len(model) == len(cases),
                        ("%d of %d evaluated; " % (len(model), len(cases))) + " | ".join(merr["m"])[:500])
@@ -535,7 +563,7 @@ def process(ctx, settings_idx, do_model=True, do_uij=True):
             else:
                 agree += 1
             # where the images are separated the tolerance algorithm must equal the exact expansion
-            if r["judged"] and c["kind"] not in ("inside", "inside+offset"):
+            if r["judged"] and c["kind"] not in ("inside", "inside+offset", "eps1e-7-in", "eps1e-3-in", "eps1e-3-in+offset"):
                 sep_checked += 1
                 if meps != mexact and not sep_bad:
                     sep_bad = "case %s: expand_eps differs from expand_exact" % json.dumps(c)
@@ -614,16 +642,17 @@ def process(ctx, settings_idx, do_model=True, do_uij=True):
         ctx.obligation("correspondence:generator_site-vs-GeneratorSite", g_disagree == 0, g_first)
         ctx.obligation("correspondence:expand_asym-vs-ExpandAsymmetricUnit", a_disagree == 0, a_first)
         ctx.obligation("correspondence:eq_uijs-vs-GeneratorSite.eqUij", u_disagree == 0, u_first)
-    for cid in list(results)[:200]:
+    for cid in list(results)[:400]:
         r = results[cid]
-        if r["case"]["kind"] in ("inside", "offset+shift", "outside") and r["impl"]:
+        if r["case"]["kind"] in ("inside", "offset+shift", "outside", "eps0-off", "eps0-off+offset", "eps1e-3-in") and r["impl"]:
             c = r["case"]
-            ctx.sample({"setting_index": c["si"], "kind": c["kind"], "xyz": [str(F(v, c["D"])) for v in c["x"]],
+            ctx.sample({"setting_index": c["si"], "kind": c["kind"], "eps": c.get("eps"), "xyz": [str(F(v, c["D"])) for v in c["x"]],
                         "sgoffset": [str(F(v, c["D"])) for v in c["off"]], "site_symmetry_order": r["nstab"],
                         "multiplicity_returned": r["impl"]["mult"], "orbit_size_exact": r["nclusters"]}, limit=6)
     ctx.coverage.update({
         "rule": "distinct (setting, exact site-symmetry operation set, case kind); kinds: general/special sites exact, "
-                "integer cell shift, shifted origin, perturbed 1e-7..4e-6 (inside), perturbed >= 5e-5 (outside)",
+                "integer cell shift, shifted origin, perturbed 1e-7..4e-6 (inside), perturbed >= 5e-5 (outside); eps argument 0 / 1e-7 / 1e-3 "
+                "on dyadic mid-bin sites displaced by 2^-22, 2^-26, 2^-13 (kinds eps*)",
         "settings": len(order), "strata_discovered": nstrata, "cases_by_kind": kinds,
         "finder_judgements": njudged, "finder_not_judged": skipped, "expand_asymmetric_unit_sites": neau,
         "model_agree": agree, "model_disagree": disagree, "model_skipped_margin_below_1e-9": skipped_fragile,
